@@ -71,6 +71,15 @@ CLAIMED = {
          "For ~6.7k (quick) / ~12k (thorough) packets: every written simple property (tiff, exif, aux, xmp, xmpMM namespaces; strings, integers, rationals, dates in 3 layouts, UUID forms, exposure bias) is reported with exactly its value, nothing else is reported, array items keep document order, the attribute form equals the element form at every length 1..1030 (1..1600), and tokens longer than the guaranteed window give the value or an error, never a wrong value.",
          "Trusted: the XMP writer (gen/xmp.go). White space is SP/LF runs between tokens only; namespace prefixes are the conventional ones; values hold no markup characters; crs/dc scalar properties and xmpMM:History structures are not generated.",
          "DESIGN.md section 4 C13"),
+
+ "C04": ("TLA+ spec Pools (pooled objects as labelled cells, sync.Pool Get = any pooled object or a new one, calls as Get/Write/TzLookup/Read/Put programs; Pure/Exclusive over every history; the `staleIdx` deviation violates Pure) model-checked by TLC; every emitted history mapped onto a catalogue of ~100 concrete calls and replayed in workers pinned to one P with GC off, interleaved with hook-driven poisoning of every pooled buffer; each result compared with the same call in a fresh process; held results re-serialised after later calls; caller-owned bufio.Reader re-used across ScanJPEG calls",
+         "For 400 (quick) / 512 (thorough) histories of 3 calls plus 100 caller-owned-reader sequences: the result of every call (metadata struct incl. zone names, hash value, error, panic) equals the fresh-process result whatever was decoded before and whatever the pooled exif2 buffer / bufio readers / pixel buffers contain (zero, 0xFF/NaN, +-1e30 patterns); previously returned results are unchanged.",
+         "Trusted: the poison hooks (verif-tagged files), GOMAXPROCS=1/GOGC=off placement. The catalogue samples the input classes; histories are exhaustive only at the abstract level.",
+         "DESIGN.md section 4 C04"),
+ "C05": ("TLA+ spec Pools with 2 concurrent call processes at the granularity of the shared-state steps (pool Get/Put, RLock lookup, RUnlock, Lock, insert): Exclusive/WriterExclusive/LockOK/Pure/Returns in every interleaving (deviations `earlyPut`, `rlockWrite` violate them) model-checked by TLC; harness built with the Go race detector: batches of 4/16/64 goroutines x GOMAXPROCS 1/2/4/16 run mixed catalogue calls incl. 112 never-seen zone offsets, ScanJPEG on raw readers next to Decode, all hash functions; race detector silent, no crash/blocking, every result equal to the fresh-process sequential result",
+         "TLC: all interleavings of 2 processes x 1 call (quick) / 2 x 2 (thorough). Real code: 24 (120) batches x 3 (8) rounds under -race, halt_on_error; ~2.5k (~40k) concurrent calls compared with their sequential results.",
+         "Interleavings on the real code are sampled by the scheduler (no gated replay of individual TLC interleavings was built); the race detector only reports races that occur.",
+         "DESIGN.md section 4 C05"),
 }
 NOT_APPLICABLE = {
  "C18": "Bit-for-bit equality of AVX and Go float32 DCT kernels and their error bound against the real DCT-II are IEEE-754 statements over 2^(32*64) inputs; TLA+/TLC has no floating point and the kernels have no state machine to specify (DESIGN.md section 5).",
